@@ -144,9 +144,10 @@ def params_of(desc):
     for (ins, outs) in desc.get("overrides", []):
         ik = [k for k in ins if k not in MODS]
         ok = [k for k in outs if k not in MODS]
-        ovr.append({"ik": c(ik[0]), "ok": c(ok[0])})
+        ovr.append({"ik": c(ik[0]), "ok": c(ok[0]), "im": [c(k) for k in ins if k in MODS]})
     sq = desc.get("seq", {})
     p = {"keys": [c(k) for k in desc["keys"]], "layers": layers, "lkeys": lkeys, "swkeys": swkeys, "ovr": ovr,
+         "roa": desc.get("defcfg", {}).get("override-release-on-activation", "no") == "yes",
          "seq": {"leaders": [c(k) for k in sq.get("leaders", [])], "T": sq.get("T", 0), "hidden": bool(sq.get("hidden", False))}}
     # a layer-switch the monitor cannot follow (nested, or not the same on every layer) makes the base layer uncertain
     p["dl0"] = 0 if (not has_sw or len(swkeys) == sum(1 for k in desc["keys"] if '"lsw"' in json.dumps([l.get(k, TR) for l in desc["layers"]]))) else -1
@@ -207,6 +208,9 @@ def family(tier, rng):
     # hold the override outputs of a key that is already listed as an override output)
     OVC = [(["lsft", "x"], ["y"]), (["lctl", "y"], ["z"])]
     add("ovr_chain_fork", "abc", [{"a": FORK(X, Y, ["lctl"]), "b": K("lsft"), "c": K("lctl")}], qmax=2, overrides=OVC)
+    # override-release-on-activation: the override lasts one tick and its input keys are released / pressed again around it
+    add("overrides_roa", "ab", [{"a": X, "b": K("lctl")}], qmax=2, overrides=[(["lctl", "x"], ["y"])],
+        defcfg={"override-release-on-activation": "yes"})
     # chords v2 (in L1): a key in two chords, the earlier-defined one disabled on the layer
     V2A = [{"ks": ["a", "b"], "o": K("1"), "T": 2, "dis": [0]}, {"ks": ["a", "c"], "o": CH(["lsft"], "2"), "T": 2}]
     add("v2_shared_key", "abc", [{"a": X, "b": Y, "c": Z}], qmax=2, v2_depth=11 if tier == "quick" else 16,
